@@ -84,3 +84,10 @@ func VerifC05ErrBlocks(cs *ChainService) (ids []types.BlockID) {
 
 // VerifC05SDB is the state DB of a Core (the harness' block producer commits block states into it).
 func (core *Core) VerifC05SDB() *state.ChainStateDB { return core.sdb }
+
+// VerifC05VerifyState reads the block validator's sign-verification bookkeeping: whether a started
+// verification has not been waited for (isNeedWait) and how many results sit in the result channel.
+// The harness uses it only to wait until the verifier goroutines are idle before it stops a node.
+func VerifC05VerifyState(cs *ChainService) (needWait bool, pending int) {
+	return cs.validator.isNeedWait, len(cs.validator.signVerifier.resultCh)
+}
